@@ -17,7 +17,11 @@ pub assume_specification [u32::overflowing_sub](a: u32, b: u32) -> (r: (u32, boo
 pub assume_specification [u32::overflowing_add](a: u32, b: u32) -> (r: (u32, bool))
     ensures r.0 == a.wrapping_add(b);
 
-pub struct AtomicMove<const BUFFER_SIZE: usize> { pub head: AtomicU32, pub tail: AtomicU32, pub dequeuer_head: AtomicU32, pub enqueuer_tail: AtomicU32 }
+pub struct AtomicMove<const BUFFER_SIZE: usize> { pub head: AtomicU32, pub tail: AtomicU32, pub dequeuer_head: AtomicU32, pub enqueuer_tail: AtomicU32,
+    /// ghost (R7): ids of reserved slots whose payload has been written (ptr::write / setter) and not yet published
+    pub written: Ghost<Set<u32>>,
+    /// ghost (R7): ids of leaked-to-consumer slots whose payload has been moved out (ptr::read) and not yet released
+    pub moved_out: Ghost<Set<u32>> }
 
 impl<const BUFFER_SIZE: usize> AtomicMove<BUFFER_SIZE> {
     /// published, unconsumed elements
@@ -35,11 +39,25 @@ impl<const BUFFER_SIZE: usize> AtomicMove<BUFFER_SIZE> {
         &&& self.len() + self.resv() <= BUFFER_SIZE + 0x1000
         &&& self.taken() <= self.len() + 0x1000
     }
-    pub open spec fn same_but_enqueuer_tail(&self, o: &Self) -> bool { self.head == o.head && self.tail == o.tail && self.dequeuer_head == o.dequeuer_head }
-    pub open spec fn same_but_dequeuer_head(&self, o: &Self) -> bool { self.head == o.head && self.tail == o.tail && self.enqueuer_tail == o.enqueuer_tail }
+    pub open spec fn same_but_enqueuer_tail(&self, o: &Self) -> bool { self.head == o.head && self.tail == o.tail && self.dequeuer_head == o.dequeuer_head && self.written == o.written && self.moved_out == o.moved_out }
+    pub open spec fn same_but_dequeuer_head(&self, o: &Self) -> bool { self.head == o.head && self.tail == o.tail && self.enqueuer_tail == o.enqueuer_tail && self.written == o.written && self.moved_out == o.moved_out }
 
     /// `mutable_buffer.get_unchecked_mut(i)`: the slot is represented by its index; the unchecked bound is the obligation
     pub fn slot_at(i: usize) -> (r: usize) requires i < BUFFER_SIZE ensures r == i { i }
+    /// `unsafe { ptr::write(slot_ref, item) }` / `setter_fn(slot_ref)` on the slot reserved under `slot_id` (R7)
+    #[verifier::external_body]
+    pub fn slot_write(&mut self, slot: usize, slot_id: u32)
+        requires slot < BUFFER_SIZE,
+        ensures final(self).written@ == old(self).written@.insert(slot_id), final(self).head == old(self).head, final(self).tail == old(self).tail,
+                final(self).dequeuer_head == old(self).dequeuer_head, final(self).enqueuer_tail == old(self).enqueuer_tail, final(self).moved_out == old(self).moved_out,
+    { }
+    /// `unsafe { ptr::read(slot_ref) }` of the slot leaked to this consumer under `slot_id` (R7)
+    #[verifier::external_body]
+    pub fn slot_read(&mut self, slot: usize, slot_id: u32)
+        requires slot < BUFFER_SIZE,
+        ensures final(self).moved_out@ == old(self).moved_out@.insert(slot_id), final(self).head == old(self).head, final(self).tail == old(self).tail,
+                final(self).dequeuer_head == old(self).dequeuer_head, final(self).enqueuer_tail == old(self).enqueuer_tail, final(self).written == old(self).written,
+    { }
 }
 pub fn relaxed_wait() { }
 pub fn u32_max(a: u32, b: u32) -> (r: u32) ensures r == (if a >= b { a } else { b }) { if a >= b { a } else { b } }
@@ -99,13 +117,13 @@ FNS = [
     fn("try_publish_leaked_internal", props=["C08", "C02", "C15"], kind="helper",
        sig="pub fn try_publish_leaked_internal(&mut self, slot_id: u32) -> (r: bool)", sig_anchor=r"pub fn try_publish_leaked_internal\(&'a self, slot_id: u32\) -> bool",
        ensures="r <==> old(self).tail@ == slot_id, r ==> final(self).tail@ == slot_id.wrapping_add(1), !r ==> final(self).tail == old(self).tail,"
-               "final(self).head == old(self).head && final(self).dequeuer_head == old(self).dequeuer_head && final(self).enqueuer_tail == old(self).enqueuer_tail"),
+               "final(self).head == old(self).head && final(self).dequeuer_head == old(self).dequeuer_head && final(self).enqueuer_tail == old(self).enqueuer_tail && final(self).written == old(self).written && final(self).moved_out == old(self).moved_out"),
     fn("publish_leaked_internal", props=["C08", "C02", "C15", "C20"],
        sig="pub fn publish_leaked_internal(&mut self, slot_id: u32)", sig_anchor=r"pub fn publish_leaked_internal\(&'a self, slot_id: u32\)",
-       requires="old(self).tail@ == slot_id",
-       ensures="final(self).tail@ == slot_id.wrapping_add(1), final(self).head == old(self).head && final(self).dequeuer_head == old(self).dequeuer_head && final(self).enqueuer_tail == old(self).enqueuer_tail",
-       loops={0: "invariant_except_break self.tail@ == slot_id, self.head == old(self).head && self.dequeuer_head == old(self).dequeuer_head && self.enqueuer_tail == old(self).enqueuer_tail,\n"
-                 "ensures self.tail@ == slot_id.wrapping_add(1), self.head == old(self).head && self.dequeuer_head == old(self).dequeuer_head && self.enqueuer_tail == old(self).enqueuer_tail,\n"
+       requires="old(self).tail@ == slot_id, old(self).written@.contains(slot_id)",
+       ensures="final(self).tail@ == slot_id.wrapping_add(1), final(self).head == old(self).head && final(self).dequeuer_head == old(self).dequeuer_head && final(self).enqueuer_tail == old(self).enqueuer_tail && final(self).written == old(self).written && final(self).moved_out == old(self).moved_out",
+       loops={0: "invariant_except_break self.tail@ == slot_id, self.head == old(self).head && self.dequeuer_head == old(self).dequeuer_head && self.enqueuer_tail == old(self).enqueuer_tail && self.written == old(self).written && self.moved_out == old(self).moved_out,\n"
+                 "ensures self.tail@ == slot_id.wrapping_add(1), self.head == old(self).head && self.dequeuer_head == old(self).dequeuer_head && self.enqueuer_tail == old(self).enqueuer_tail && self.written == old(self).written && self.moved_out == old(self).moved_out,\n"
                  "decreases 0int,"}),
     fn("available_elements_count", impl=IMPL_PUB, props=["C02", "C15", "C16"],
        sig="pub fn available_elements_count(&self) -> (r: usize)", sig_anchor=r"fn available_elements_count\(&self\) -> usize",
@@ -114,8 +132,8 @@ FNS = [
        sig="pub fn release_leaked_internal(&mut self, slot_id: u32)", sig_anchor=r"pub fn release_leaked_internal\(&self, slot_id: u32\)",
        rules=[Rule("R8-break", r"Ok\(_\) => break,", "Ok(_) => return,", count=1, note="`break` of the tail loop -> `return`")],
        requires="old(self).head@ == slot_id",
-       ensures="final(self).head@ == slot_id.wrapping_add(1), final(self).tail == old(self).tail && final(self).dequeuer_head == old(self).dequeuer_head && final(self).enqueuer_tail == old(self).enqueuer_tail",
-       loops={0: "invariant self.head@ == slot_id, self.tail == old(self).tail && self.dequeuer_head == old(self).dequeuer_head && self.enqueuer_tail == old(self).enqueuer_tail,"}),
+       ensures="final(self).head@ == slot_id.wrapping_add(1), final(self).tail == old(self).tail && final(self).dequeuer_head == old(self).dequeuer_head && final(self).enqueuer_tail == old(self).enqueuer_tail && final(self).written == old(self).written && final(self).moved_out == old(self).moved_out",
+       loops={0: "invariant self.head@ == slot_id, self.tail == old(self).tail && self.dequeuer_head == old(self).dequeuer_head && self.enqueuer_tail == old(self).enqueuer_tail && self.written == old(self).written && self.moved_out == old(self).moved_out,"}),
     fn("consume_leaking_internal", props=["C01", "C02", "C15"], attrs="#[verifier::exec_allows_no_decreases_clause]",
        sig="pub fn consume_leaking_internal<ReportEmptyFn: Fn() -> bool>(&mut self, report_empty_fn: ReportEmptyFn) -> (r: Option<(usize, u32, i32)>)",
        sig_anchor=r"fn consume_leaking_internal\(&self, report_empty_fn: impl Fn\(\) -> bool\) -> Option<\(&'a mut SlotType, u32, i32\)>",
@@ -132,6 +150,21 @@ FNS = [
                  " forall|r: bool| report_empty_fn.ensures((), r) ==> !r, report_empty_fn.requires(()),"}),
 ]
 
+IMPL_SUB = r"MoveSubscriber\s*<\s*SlotType\s*>\s*for\s+AtomicMove\s*<\s*SlotType\s*,\s*BUFFER_SIZE\s*>\s*(?=\{)"
+CLOSURE_FALSE = Rule("R15-closure-false", r"\|\| false", "|| -> (b: bool) ensures !b { false }", count=1, note="`|| false` with its (trivial) specification")
+FNS += [
+    # C01 mechanism: the payload is written BEFORE the slot is published (a consumer must never see an unwritten slot); whole-view counters
+    fn("publish_movable", impl=IMPL_PUB, props=["C01", "C02", "C16", "C15"], kind="mechanism",
+       sig="pub fn publish_movable(&mut self, item: u64) -> (r: (Option<NonZeroU32>, Option<u64>))",
+       sig_anchor=r"fn publish_movable\(&self, item: SlotType\) -> \(Option<NonZeroU32>, Option<SlotType>\)",
+       rules=[CLOSURE_FALSE,
+              Rule("R7-write", r"unsafe \{ ptr::write\(slot_ref, item\); \}", "self.slot_write(slot_ref, slot_id);", count=1, note="ptr::write -> slot_write (ghost: this reservation's payload is written)")],
+       requires="old(self).inv(), old(self).resv() == 0, old(self).written@ =~= Set::empty()",
+       ensures="old(self).len() < BUFFER_SIZE ==> r.0 is Some && r.1 is None && r.0.unwrap().get() as int == old(self).len() + 1 && final(self).len() == old(self).len() + 1 && final(self).resv() == 0"
+               "   && final(self).written@.contains(old(self).enqueuer_tail@),"
+               "old(self).len() >= BUFFER_SIZE ==> r.0 is None && r.1 == Some(item) && final(self).tail == old(self).tail && final(self).enqueuer_tail == old(self).enqueuer_tail && final(self).written == old(self).written,"
+               "final(self).head == old(self).head && final(self).dequeuer_head == old(self).dequeuer_head"),
+]
 POW2 = "divides_2_32(BUFFER_SIZE as int), (slot_index as int) < BUFFER_SIZE"
 FRAME_ENQ = "final(self).same_but_enqueuer_tail(old(self))"
 FNS += [
@@ -161,7 +194,7 @@ FNS += [
               Rule("R14-u32-max", r"\bu32::max\(", "u32_max(", count=1, note="u32::max -> shim with the same meaning")],
        hints=[(r"let mut slot_id = slot_index;", "proof { lemma_lap(self.tail@ as int, BUFFER_SIZE as int, slot_index as int); }"),
               (r"> slot_id / BUFFER_SIZE as u32 \{", "proof { lemma_lap(reloaded_tail as int, BUFFER_SIZE as int, slot_index as int); }"),
-              (r"else \{(?=\s*relaxed_wait\(\);)", "proof { lemma_lap(slot_id as int, BUFFER_SIZE as int, slot_index as int); }")],
+              (r"else \{(?=\s*relaxed_wait\(\);)", "proof { lemma_lap(slot_id as int, BUFFER_SIZE as int, slot_index as int); lemma_lap(self.tail@ as int, BUFFER_SIZE as int, slot_index as int); lemma_lap(reloaded_tail as int, BUFFER_SIZE as int, slot_index as int); assert(reloaded_tail == self.tail@); }")],
        requires="old(self).inv(), " + POW2,
        ensures="final(self).head == old(self).head && final(self).dequeuer_head == old(self).dequeuer_head && final(self).enqueuer_tail == old(self).enqueuer_tail,"
                "r is Some ==> final(self).tail@ == old(self).tail@.wrapping_add(1) && (old(self).tail@ as int) % (BUFFER_SIZE as int) == slot_index,"
